@@ -167,6 +167,14 @@ func (s *ScanMethod) ProcessPacketData(data []byte, _ *gopacket.CaptureInfo) (er
 }
 
 func validPacket(decoded []gopacket.LayerType) bool {
+	// the last two layers must be the IPv4 and TCP headers of this very packet,
+	// otherwise rcvIP/rcvTCP still hold the data of an earlier packet
+	if n := len(decoded); n < 2 || decoded[n-2] != layers.LayerTypeIPv4 || decoded[n-1] != layers.LayerTypeTCP {
+		return false
+	}
+	if len(decoded) == 3 && decoded[0] != layers.LayerTypeEthernet {
+		return false
+	}
 	return len(decoded) == 3 || (len(decoded) == 2 && decoded[0] == layers.LayerTypeIPv4)
 }
 
